@@ -59,7 +59,7 @@ def c01_runs(tier):
                     preempt=0, E=3, P=0, Q=0, method=1, owner=2, ops=3, selfpost=1))
     r.append(mt_run('event+fd.same-batch', 'harness/event.c',
                     ['event.handler-unregisters-fd-of-same-batch', 'event.fd-in-same-batch-handled'],
-                    preempt=2, E=1, P=1, Q=1, method=1, withfd=2))
+                    preempt=2, E=1, P=1, Q=1, method=0, withfd=2))
     r.append(mt_run('event+fd.same-batch.poll', 'harness/event.c',
                     ['event.handler-unregisters-fd-of-same-batch'], preempt=1, E=1, P=1, Q=1, method=3, withfd=2))
     r.append(mt_run('raw-event', 'harness/eventraw.c', ['raw.unregister-in-handler'], preempt=1, R=2, T=0, N=0,
